@@ -43,6 +43,11 @@ INDEX = {
  "C07": {"package": ".", "harnesses": [
    {"name": "VerifH07History", "common": {"max_depth": 2000}, "quick": {"bounds": {"steps": 2, "ops": 9, "rows": 2, "colhis": 1, "caches": 1}}, "thorough": {"bounds": {"steps": 2, "ops": 9, "rows": 3, "colhis": 2, "caches": 3}}},
  ]},
+ "C08": {"package": ".", "harnesses": [
+   {"name": "VerifH08IntField", "common": {"max_depth": 3000}, "quick": {"bounds": {"values": 1, "magnitude": 7}}, "thorough": {"bounds": {"values": 2, "magnitude": 100}}},
+   {"name": "VerifH08FieldMeta", "common": {"max_depth": 3000}, "quick": {"bounds": {}}},
+   {"name": "VerifH08IndexMeta", "common": {"max_depth": 3000}, "quick": {"bounds": {}}},
+ ]},
  "C09": {"package": "./roaring", "harnesses": [
    {"name": "VerifH09OpLogCrash", "common": {"max_depth": 3000}, "quick": {"bounds": {"steps": 2, "ops": 4, "keys": 1}}, "thorough": {"bounds": {"steps": 2, "ops": 4, "keys": 2}}},
    {"name": "VerifH09FragmentCrash", "package": ".", "common": {"max_depth": 3000}, "quick": {"bounds": {"steps": 2, "ops": 8, "rows": 2}}, "thorough": {"bounds": {"steps": 2, "ops": 8, "rows": 4}}},
